@@ -1782,6 +1782,8 @@ class Interp:
             return tuple(i.iter_concrete(a[0])) if a else ()
         def bi_set(i, a, k):
             if not a:
+                if i.reg and getattr(i.reg, 'empty_set_hook', None):
+                    return i.reg.empty_set_hook(i)
                 return set()
             try:
                 items = i.iter_concrete(a[0])
